@@ -772,7 +772,7 @@ def readback_problem(obj, attr, doc, val, v):
         want = R.from_quat([0, 0, 0, 1]) if val is None else val
         q1 = np.reshape(want.as_quat(), (-1, 4))
         q2 = np.reshape(got.as_quat(), (-1, 4))
-        if q1.shape != q2.shape or (R.from_quat(q1) * R.from_quat(q2).inv()).magnitude().max() > 1e-12:
+        if q1.shape != q2.shape or (len(q1) and (R.from_quat(q1) * R.from_quat(q2).inv()).magnitude().max() > 1e-12):
             return "orientation reads back different"
         return None
     want = expected_store(doc, val)
